@@ -64,7 +64,7 @@ func refNorm(label string) string {
 var units = [][]string{
 	{"a", "A"}, {"b", "B"}, {"s", "S", "ſ"}, {"ss", "ß", "ẞ", "SS", "sS", "ſs", "sſ"}, {"k", "K", "K"}, {"σ", "Σ", "ς"},
 	{"i̇", "İ"}, {"i", "I"}, {"ı"}, {"fi", "ﬁ", "FI", "Fi"}, {"ǆ", "Ǆ", "ǅ"}, {"μ", "µ", "Μ"}, {"é", "É"}, {"1"}, {"9"}, {"z", "Z"},
-	{"\\]"}, {"\\["}, {"\\\\"}, {"\\!"}, {"!"}, {"*"}, {" "}, {" "}, {"&amp;"}, {"&"},
+	{"\\]"}, {"\\["}, {"\\\\"}, {"\\!"}, {"\\"}, {"\\"}, {"!"}, {"*"}, {" "}, {" "}, {"&amp;"}, {"&"},
 }
 
 var wsRuns = []string{" ", "  ", "\t", " \t ", "\n", " \n", "\n ", "\r\n", "\r"}
@@ -150,6 +150,23 @@ func labelOK(l string) bool {
 	}
 	if len(l) > 300 {
 		return false
+	}
+	// a literal backslash (one that is not followed by ASCII punctuation) is
+	// fine anywhere, also as the last character before trailing white space;
+	// what must not happen is an unescaped bracket, or a backslash that would
+	// escape the closing bracket
+	for i := 0; i < len(l); i++ {
+		switch l[i] {
+		case '\\':
+			if i+1 >= len(l) {
+				return false
+			}
+			if strings.IndexByte("!\"#$%&'()*+,-./:;<=>?@[\\]^_`{|}~", l[i+1]) >= 0 {
+				i++
+			}
+		case '[', ']':
+			return false
+		}
 	}
 	lf := strings.ReplaceAll(strings.ReplaceAll(l, "\r\n", "\n"), "\r", "\n")
 	lines := strings.Split(lf, "\n")
